@@ -39,7 +39,7 @@ THEOREMS = ['C14_squeeze_closed_form', 'C14_content_layout',
             'C14_front_metamorphic_case', 'C14_surface_metamorphic',
             'C14_split_cell_rendered', 'C14_cell_metamorphic',
             'C14_material_cell_parsed', 'C14_split_likebut',
-            'C14_options_trailing_blank']
+            'C14_options_trailing_blank', 'C14_shorthand_invariant']
 TRUSTED = [
     'hand-written model coq/C14/Model.v (modelled, tied by execution only); '
     'regexes re-implemented as scanners: tied exhaustively on short strings '
@@ -673,6 +673,10 @@ CORPUS = [
     ('IMP data card 3r', lambda t: t.replace(' imp:n=1', '').replace(' imp:n=0', '') + 'imp:n 1 3r 0\n'),
     ('IMP data card R R R upper case', lambda t: t.replace(' imp:n=1', '').replace(' imp:n=0', '') + 'IMP:N 1 R R R 0\n'),
     ('IMP data card 1 2i 1 0 -- constant interpolation', lambda t: t.replace(' imp:n=1', '').replace(' imp:n=0', '') + 'imp:n 1 2i 1 0\n'),
+    ('IMP data card 1 1 2 1i 0 -- interpolated descent into the zero (mutation M17)',
+     lambda t: t.replace(' imp:n=1', '').replace(' imp:n=0', '') + 'imp:n 1 1 2 1i 0\n'),
+    ('IMP data card 1 r 2r 0 -- bare r (mutation M13)',
+     lambda t: t.replace(' imp:n=1', '').replace(' imp:n=0', '') + 'imp:n 1 r 2r 0\n'),
     ('upper-case M card', lambda t: t.replace('m1 1001', 'M1 1001')),
     ('blanks around the union colon', lambda t: t.replace('5 0 2 imp', '5 0 2 : 2 imp')),
     ('explicit plus sign', lambda t: t.replace('5 0 2 imp', '5 0 +2 imp')),
